@@ -262,3 +262,7 @@ def run_thorough(ck):
 # session 5 (round 9, D24)
 EXPLANATION = EXPLANATION + " " + (
     'TAINT/api-int-arith: state fields that an API setter stores from unvalidated integer parameters (deflateTune) never feed unguarded overflow-checked arithmetic. ATOM/c-truthiness: int parameters become bool arguments by `!= 0`.')
+
+# session 5 (round 10)
+EXPLANATION = EXPLANATION + " " + (
+    "ATOM/duplicate-flush and ATOM/rank-flush (shared with C11): the BUF_ERROR for a repeated flush is decided by zlib's ranking of the flush values.")
